@@ -45,7 +45,7 @@ class C06(BaseCheck):
   REQUIRED_CLASSES = ('phase:in-band', 'phase:pinned-max', 'phase:pinned-min', 'phase:pinned-members',
                       'expansion', 'contraction', 'jitter-round', 'member-down', 'leave-active',
                       'leave-during-jitter-round', 'close-raises-in-jitter-round',
-                      'second-balancer-connecting', 'wall-clock-steps-back', 'yielding-log-handler', 'leave-at-jitter-start', 'phase:trickle', 'requests-outlive-mark-down', 'duplicates-in-initial-list')
+                      'second-balancer-connecting', 'wall-clock-steps-back', 'yielding-log-handler', 'leave-at-jitter-start', 'phase:trickle', 'requests-outlive-mark-down', 'duplicates-in-initial-list', 'closed-unmarked-member-leaves')
   ASSUMPTIONS = ('smoothed load = harness reference EMA with the balancer\'s documented 5 s window and the '
                  'same sampling points, on the documented clock (wall time while it moves forward; standing still while a stepped-back wall clock is behind an earlier reading) (cross-checked against the published load_average gauge); phases whose '
                  'per-member load is within 1e-6 of a band edge for a relevant size are skipped and counted',
@@ -423,6 +423,18 @@ class C06(BaseCheck):
               issue()    # the balancer notices a dead member only when it reaches the heap top
             op(down)
             classes.add('member-down')
+        elif k < 0.32:
+          # an active member's connection fails during a lull (no dispatch visits it, so the balancer has not
+          # marked it down or replaced it) and the member leaves before the next request
+          cands = [c for c in w.heap_channels() if c._state == OPEN and not c.inflight and c.ep in ss.truth]
+          if cands:
+            c = rng.choice(cands)
+            classes.add('closed-unmarked-member-leaves')
+
+            def fail_and_leave(c=c):
+              c.set_down()
+              ss.leave(c.ep)
+            op(fail_and_leave, left_active=True)
         elif k < 0.4:
           cands = [c for c in w.channels if c.down and not c.close_steps]
           if cands:
@@ -457,6 +469,7 @@ class C06(BaseCheck):
       s_trace = []
       ev_mark0 = len(env.events)
       truth0 = set(ss.truth)
+      size_at_phase_start = sizes()[0]     # (may exceed max_size already: replacements of members that were down)
       for _i in range(K + 3):
         if len(live) >= K:
           break
@@ -501,6 +514,18 @@ class C06(BaseCheck):
         # are really outstanding.  The property speaks about the latter, so the phase is still
         # judged with the reference value (the drift itself is only counted).
         stats['ema_crosscheck_mismatch'] += 1
+      if healthy and jit and mx < 2 ** 31 and not env.c06_jitter_depth and \
+          not any(c_.opens_in_flight for c_ in w.channels):
+        # jitter rounds took place in this steady phase, none is in progress now, every active member is
+        # healthy and nothing is connecting: a round swaps one member for another, so whatever the load the
+        # active set has not grown beyond max_size in this phase (that would be load-driven growth by another
+        # door; a size above max_size that the phase began with - replacements of members that were down - is
+        # not the rounds' doing)
+        out.obligations += 1
+        if sizes()[0] > max(mx, size_at_phase_start):
+          viol('growth-cap', 'the jitter rounds of a steady phase (K=%d for %.0fs, smoothed load %.2f) left %d members active (all '
+               'healthy, nothing connecting); the phase began with %d, max_size=%d' % (
+                 K, length, ema.value, sizes()[0], size_at_phase_start, mx), {'after_jitter_rounds': True})
       if not healthy or jit or not seen or not ss.truth or min(seen) < 1:
         stats['phases_skipped_unhealthy'] += 1
         continue
